@@ -31,7 +31,7 @@ TRAD = {"CFS", "GPM", "MGD", "IMGD", "AFD"}
 # networks whose features both engines support and whose hydraulics are well conditioned (no disconnected demand, no
 # threshold ties): the agreement checks are restricted to them; the reader validation uses every INP file EPANET accepts
 COMMON = ["builtin:net1_noon_rule", "builtin:net1_pressure_control", "builtin:head_pattern_with_pattern_start", "builtin:tcv_setting_control", "builtin:open_valves_FCV",
-          "builtin:open_valves_PRV", "builtin:open_valves_TCV", "builtin:rule_two_else_actions", "builtin:low_head_tcv", "builtin:pump_against_a_higher_zone", "examples/networks/Net1.inp", "examples/networks/Net2.inp", "examples/networks/Net3.inp",
+          "builtin:open_valves_PRV", "builtin:open_valves_TCV", "builtin:rule_two_else_actions", "builtin:low_head_tcv", "builtin:pump_against_a_higher_zone", "builtin:two_point_pump_curve", "examples/networks/Net1.inp", "examples/networks/Net2.inp", "examples/networks/Net3.inp",
           "wntr/tests/networks_for_testing/Todini_Fig2_optCost_CMH.inp", "wntr/tests/networks_for_testing/Todini_Fig2_optCost_GPM.inp",
           "wntr/tests/networks_for_testing/Todini_Fig2_solA_CMH.inp", "wntr/tests/networks_for_testing/Todini_Fig2_solA_GPM.inp",
           "wntr/tests/networks_for_testing/conditional_controls_1.inp", "wntr/tests/networks_for_testing/leaks.inp",
@@ -87,6 +87,18 @@ def _builtin(name):
         wn.options.time.duration = 8 * 3600
         wn.options.time.pattern_timestep = 3600
         wn.options.time.pattern_start = 7200
+        return wn
+    if name == "two_point_pump_curve":           # a head pump whose curve is a straight line through two points, the first not at zero flow
+        wn = wntr.network.WaterNetworkModel()
+        wn.add_pattern("dp", [1.0, 0.5, 1.6, 0.8])
+        wn.add_reservoir("R", base_head=10.0)
+        wn.add_junction("A", base_demand=0.0, elevation=0.0)
+        wn.add_junction("B", base_demand=0.02, elevation=20.0, demand_pattern="dp")
+        wn.add_curve("pc", "HEAD", [(0.01, 45.0), (0.06, 20.0)])
+        wn.add_pump("P", "R", "A", pump_type="HEAD", pump_parameter="pc")
+        wn.add_pipe("AB", "A", "B", length=300, diameter=0.25, roughness=110)
+        wn.options.time.duration = 4 * 3600
+        wn.options.time.pattern_timestep = 3600
         return wn
     if name == "pump_against_a_higher_zone":       # a head pump (shutoff head 50 m) between a low source and a zone held at 100 m: it must shut, not run backwards
         wn = wntr.network.WaterNetworkModel()
